@@ -88,3 +88,15 @@ pub open spec fn math_piece_ok(n: &SyntaxNode, d: DocV) -> bool {
     &&& (n.kind_s() == SyntaxKind::Hash ==> d == txt("#"@))
     &&& (!ast::expr_kind(n.kind_s()) && n.kind_s() != SyntaxKind::Space && n.kind_s() != SyntaxKind::Hash ==> d == txt(n.text_s()))
 }
+
+/// C10: what `convert_raw` must emit for the children of a (non-verbatim) raw node, in order: delimiter and language tag as
+/// their own text, each text line verbatim, each trimmed part as exactly one blank or one mandatory break; nothing else
+pub open spec fn raw_piece(n: &SyntaxNode) -> Seq<DocV> {
+    if n.kind_s() == SyntaxKind::RawDelim || n.kind_s() == SyntaxKind::RawLang { seq![txt(n.text_s())] }
+    else if n.kind_s() == SyntaxKind::Text { seq![txt(n.full_text_s())] }
+    else if n.kind_s() == SyntaxKind::RawTrimmed { seq![if has_newline_s(n.text_s()) { DocV::Hardline } else { sp() }] }
+    else { Seq::empty() }
+}
+pub open spec fn raw_pieces(ch: Seq<&SyntaxNode>) -> Seq<DocV> decreases ch.len() {
+    if ch.len() == 0 { Seq::empty() } else { raw_pieces(ch.drop_last()) + raw_piece(ch.last()) }
+}
